@@ -329,6 +329,48 @@ def _worker(args):
         return {"harness_error": traceback.format_exc(), "task": task.get("name", "?")}
 
 
+def run_covfuzz(modname, task, seed, acc):
+    """A coverage-guided campaign (vp.fuzz_prop) for `modname`; failures come back as replayable cases."""
+    import tempfile
+    import shutil
+    work = tempfile.mkdtemp(prefix="vp-covfuzz-")
+    try:
+        corpus = os.path.join(work, "corpus")
+        os.makedirs(corpus)
+        out = os.path.join(work, "failures.jsonl")
+        env = dict(os.environ)
+        env["PYTHONPATH"] = VERIF + os.pathsep + DEPS
+        env["VERIF_FUZZ_OUT"] = out
+        env["VERIF_REPO"] = REPO
+        cmd = [sys.executable, "-m", "vp.fuzz_prop", modname, "-runs=%d" % task["runs"],
+               "-seed=%d" % (seed * 100 + task.get("shard", 0) + 1), "-max_len=%d" % task.get("max_len", 2048),
+               "-timeout=60", "-artifact_prefix=" + work + "/", "-print_final_stats=1", corpus]
+        p = subprocess.run(cmd, cwd=VERIF, env=env, stdout=subprocess.PIPE, stderr=subprocess.STDOUT, text=True,
+                           errors="replace")
+        m = re.search(r"stat::number_of_executed_units:\s*(\d+)", p.stdout)
+        execs = int(m.group(1)) if m else 0
+        if not execs:
+            raise HarnessError("coverage-guided campaign did not run: " + p.stdout[-1500:])
+        acc.evaluations += execs
+        acc.cls("coverage_guided_execs", execs)
+        units = os.listdir(corpus)
+        acc.cls("coverage_guided_corpus_units", len(units))
+        for u in units:
+            acc.nontrivial.add(digest("covfuzz:" + u))
+        m2 = re.findall(r"cov: (\d+)", p.stdout)
+        if m2:
+            acc.extra["coverage_guided_edges"] = max(int(x) for x in m2)
+        if os.path.exists(out):
+            with open(out) as f:
+                for line in f:
+                    rec = json.loads(line)
+                    acc.fail(rec["bucket"], rec["case"], rec["detail"])
+        if p.returncode != 0 and not os.path.exists(out):
+            acc.notes.append("coverage-guided campaign ended with rc=%s: %s" % (p.returncode, p.stdout[-400:]))
+    finally:
+        shutil.rmtree(work, ignore_errors=True)
+
+
 def slug(s):
     return re.sub(r"[^A-Za-z0-9_.-]+", "_", s)[:80].strip("_") or "x"
 
